@@ -6,7 +6,11 @@
    saved items."
 
   Quantifier: every history of `save i d items | destroy i d`, of any length, over any index
-  names, domains, keys and values (states are total functions; nothing is bounded).
+  names, domains, keys and values (states are total functions; nothing is bounded).  Index names,
+  domains and keys are abstract identities: the theorems are about names that the server keeps
+  apart, i.e. clean swamp-name parts (non-empty, no '/').  What the real stack does with an empty
+  key or a key containing '/' is covered by the driver's executable extension and the
+  correspondence run (findings C27-empty-key-save-ignored, C27-key-with-separator-not-indexed).
   Model: Hv/Misc/Hydrex.lean.
 -/
 import Hv.Misc.Hydrex
@@ -201,6 +205,7 @@ structure Facts where
   updatesExisting : Tri
   saveRemovesStale : Tri
   destroyCleansIndex : Tri
+  namesVerbatim : Tri   -- core / index swamp names are Sanctuary(const).Realm(indexName).Swamp(domain | key), nothing transformed
   deriving Repr
 
 def cfgOf (f : Facts) : Cfg := ⟨f.updatesExisting.isYes, f.saveRemovesStale.isYes, f.destroyCleansIndex.isYes⟩
@@ -211,7 +216,8 @@ def findings (c : Cfg) : List String :=
   (if c.destroyCleansIndex then [] else ["C27-destroy-leaves-index"])
 
 def classify (f : Facts) : Verdict :=
-  if f.updatesExisting == .unknown || f.saveRemovesStale == .unknown || f.destroyCleansIndex == .unknown then
+  if f.namesVerbatim != .yes then .undetermined "the swamp name builders of hydrex.go were not recognised"
+  else if f.updatesExisting == .unknown || f.saveRemovesStale == .unknown || f.destroyCleansIndex == .unknown then
     .undetermined "a step of hydrex.Save / Destroy was not recognised"
   else if (cfgOf f).updatesExisting && (cfgOf f).saveRemovesStale && (cfgOf f).destroyCleansIndex then .holds
   else .violated (findings (cfgOf f))
@@ -220,6 +226,8 @@ theorem classify_sound (f : Facts) :
     (classify f).Sound (Holds (cfgOf f))
       ((cfgOf f).saveRemovesStale = true → (cfgOf f).destroyCleansIndex = true → HoldsPartial (cfgOf f)) := by
   unfold classify
+  split
+  · trivial
   split
   · trivial
   · split
